@@ -17,6 +17,7 @@ import RV.Proofs.C01Mercurius
 import RV.Proofs.C01BsLinear
 import RV.Proofs.C01Trace
 import RV.Proofs.C01Ias15Sweep
+import RV.Proofs.C01Dispatch
 import RV.Proofs.C01Flow
 /-
   C01 — every integrator converges to the true N-body solution at its advertised order.   **PARTIAL.**
@@ -47,6 +48,22 @@ theorem c01_extraction_complete :
     (iasCounts = [("h", 8), ("rr", 28), ("c", 21), ("d", 21), ("w", 8)] ∧ iasH.length = 8 ∧ iasRR.length = 28 ∧
       iasC.length = 21 ∧ iasD.length = 21 ∧ iasW.length = 8) :=
   ⟨Saba.counts, Whfast.counts, Eos.counts, Janus.counts, Ias15.counts⟩
+
+/-! ### the two-phase step driver (src/integrator.c) -/
+/-- executing the switch statements of `reb_integrator_part1`, `reb_integrator_part2`, `reb_simulation_synchronize` for each of the
+    twelve values of the integrator enumeration reaches that family's own routine (no missing or crossed case; `none` only advances
+    time), and `reb_simulation_reset_integrator` resets every family with state and selects IAS15 -/
+theorem c01_step_driver_dispatch :
+    (dispatch.map (fun r => (r.2.2.1, r.2.1)) =
+      [("ias15", 0), ("whfast", 1), ("sei", 2), ("leapfrog", 4), ("none", 7), ("janus", 8), ("mercurius", 9), ("saba", 10), ("eos", 11),
+       ("bs", 12), ("whfast512", 21), ("trace", 25)] ∧ (dispatch.map (·.2.1)).Nodup) ∧
+    (∀ r ∈ dispatch,
+      (r.2.2.1 = "none" → r.2.2.2.1 = "" ∧ r.2.2.2.2.1 = "advance_time" ∧ r.2.2.2.2.2 = "") ∧
+      (r.2.2.1 ≠ "none" → r.2.2.2.1 = Dispatch.expected r.2.2.1 "part1" ∧ r.2.2.2.2.1 = Dispatch.expected r.2.2.1 "part2" ∧
+        r.2.2.2.2.2 = Dispatch.expected r.2.2.1 "synchronize")) ∧
+    ((∀ r ∈ dispatch, r.2.2.1 ≠ "none" → r.2.2.1 ≠ "leapfrog" → Dispatch.expected r.2.2.1 "reset" ∈ dispatchResetCalls) ∧
+      dispatchResetIntegrator = 0 ∧ dispatchResetCalls.Nodup) :=
+  ⟨Dispatch.enumeration, Dispatch.no_crossed_case, Dispatch.reset_complete⟩
 
 /-! ### SABA (18 types) -/
 /-- every type has the documented number of stages, and that many kicks and one more drift per step -/
